@@ -138,3 +138,13 @@ TABLE["C11"] = {
     "level_text": "Theorems for all target addresses, page sizes and kernel answer sequences: an accepted placement is strictly within +-128 MiB and is the only mapping kept; on panic nothing obtained is left mapped (C11_sound); the loop makes at most 2*range/page+1 probes (C11_terminates, C11_probe_bound); every accepted placement is encodable by the x86-64 entry branch and by the AArch64 B (C11_reach_x86, C11_reach_a64, through C01/C15). Correspondence: the unmodified allocator under scripted and real kernels, event log compared call by call.",
     "level_note": "Trusted: Lean kernel, shim, oracle freshness. Windows VirtualAlloc path not modelled.",
 }
+
+TABLE["C04"] = {
+    "pipelines": [{"name": "threads", "cmd": ["threads"], "n_quick": 500, "n_thorough": 20000, "timeout": 900, "timeout_thorough": 3400}],
+    "fail_keys": ["c04."],
+    "trusted_base": TB_COMMON + ["std::sync::Mutex gives mutual exclusion and wakes a waiter on unlock (liveness/fairness assumed, not proved)", "Rust drop order: Drop::drop body, then fields in declaration order", "the global event log is appended while the guard is held, so its order is the real order of critical sections"],
+    "rule": "T in {2,4,8,16} threads x N iterations each: PRNG choice of injector (1, 2, 32 or 64 installs of a thread-specific fake on one shared function, to widen the release window) or preventer, calls of the shared function before/after install, release by scope exit or by panic under catch_unwind; in-critical-section counter; one line per T. Distinct by line; non-trivial when the log shows hand-overs between different threads",
+    "assumptions": ["mutex fairness/liveness", "no thread calls the shared function without holding a guard (the README's caller obligation)"],
+    "level_text": "Theorems over the lock transition system for any number of threads and any interleaving (Reach): at most one holder (C04_excl); a preventer holder sees the original, an injector holder exactly its own fake or the original before installing (C04_preventer_sees_original, C04_injector_sees_own); whenever the mutex is free the function is original (C04_free_means_original); after release by drop or panic every idle thread can acquire (C04_handover, C04_release_completes). One inductive invariant (Lemmas/Lock.lean) parametrised by facts extracted from injector.rs (C04_source_good). Correspondence: real threads, trace checked against the LTS.",
+    "level_note": "Partial by nature: mutex fairness and the scheduler are assumed; the stress run samples schedules, the theorem covers all of them for the model.",
+}
